@@ -463,6 +463,14 @@ fn c19(tier: Tier) -> Vec<SeqCfg> {
         append(K1, b"1", Zero),
         prepend(K1, b"2", Zero),
         append(K2, b"3", Current),
+        append(K1, b"4", Stale1),
+        prepend(K1, b"5", Stale1),
+        prepend(K2, b"6", CurrentPlus1),
+        incr(K1, 1, 10, 0, Stale1),
+        decr(K1, 1, 10, 0, Current),
+        store(StoreKind::Replace, K1, b"rs", 8, 0, Stale1),
+        store(StoreKind::Add, K1, b"as", 8, 0, Current),
+        delete(K1, Current),
         incr(K1, 2, 10, 0, Zero),
         decr(K1, 1, 10, 0, Zero),
         incr(K2, 1, 10, 0xffff_ffff, Zero),
